@@ -64,3 +64,36 @@ Theorem P_data_status_names_first_empty :
       z_scenarios z <> 0 /\ z_trips z = 0))%nat.
 Proof. exact data_status_names_first_empty. Qed.
 Print Assumptions P_data_status_names_first_empty.
+
+(* ---- all loaders, any file states (Loader2.v): start-up never ends in a crash / hang / undefined behaviour; whatever
+   was loaded satisfies the no-dangling-identifier invariant the router relies on (every trip's path, line, agency, mode,
+   service and stops resolve; 2 <= stop times <= path stops); the status is documented and names the first empty
+   collection; a refresh of all caches ends in the same invariant ---- *)
+From TrV Require Import Loader2 Proofs.Loader2Proofs.
+Theorem P_startup_never_bad : forall f, is_bad (startup f) = false.
+Proof. exact startup_not_bad. Qed.
+Print Assumptions P_startup_never_bad.
+
+Theorem P_loaded_memory_consistent : forall f, mem_ok (fst (load_all f)).
+Proof. exact load_all_ok. Qed.
+Print Assumptions P_loaded_memory_consistent.
+
+Theorem P_loaded_trip_resolves : forall m t, mem_ok m -> In t (mm_trips m) ->
+  exists p l,
+    find_path (data_of m) (t_path t) = Some p /\ find_line (data_of m) (p_line p) = Some l /\
+    memb (l_agency l) (mm_agencies m) = true /\ mode_known (l_mode l) = true /\
+    memb (t_service t) (mm_services m) = true /\
+    (2 <= length (t_times t) <= length (p_nodes p))%nat /\
+    (forall n, In n (p_nodes p) -> In n (mm_nodes m)) /\
+    trip_line (data_of m) t = l_id l /\ trip_agency (data_of m) t = l_agency l /\ trip_mode (data_of m) t = l_mode l.
+Proof. exact mem_ok_trip_resolves. Qed.
+Print Assumptions P_loaded_trip_resolves.
+
+Theorem P_load_all_status_documented : forall f,
+  In (snd (load_all f)) [ST_READY; ST_NO_AGENCIES; ST_NO_SERVICES; ST_NO_NODES; ST_NO_LINES; ST_NO_PATHS; ST_NO_SCENARIOS; ST_NO_SCHEDULES].
+Proof. exact load_all_status_documented. Qed.
+Print Assumptions P_load_all_status_documented.
+
+Theorem P_refresh_all_consistent : forall f s, mem_ok (sv_mem (update f [CAll] s)).
+Proof. exact update_all_ok. Qed.
+Print Assumptions P_refresh_all_consistent.
